@@ -712,7 +712,9 @@ class Exec:
                         raise FileNotFoundError(path)
                     ip = GeophiresInputParameters(params=dict(op['params']), from_file_path=Path(path))
                 result = cl.get_geophires_result(ip)
-                served_from_cache = (k.seq == seq0)
+                # a result object that was handed out before comes from the client's cache; its output_file_path may since
+                # have been overwritten by another request for the same path, so only the result itself is compared then
+                served_from_cache = (k.seq == seq0) or any(result is r_ for r_, _, _ in self.returned)
                 parsed = canon_parsed(result.result)
                 if not served_from_cache:
                     with K._real['open'](result.output_file_path, encoding='utf-8') as f:
